@@ -404,3 +404,5 @@ Definition life (f0 : fs) (tmp : option path) (n0 : Z) (mid : list op) : state :
   fst (run (start f0) (Create tmp n0 :: mid ++ [Del])).
 Definition add_content (f : fs) (p : path) : Z :=
   match look f p with File c => c | _ => empty_content end.
+(* what lies in the tmp_dir parent d beside the tracker's own directory T *)
+Definition stale (d T q : path) : bool := under d q && negb (is_prefix T q).
